@@ -401,3 +401,75 @@ Lemma shift_count_witness :
   cres 4 (vshl (mkV TGeneric 1) (mkV TGeneric 4294967297) (amask 4)) = Ok (mkV TGeneric 0) /\
   sp_shl 4 (canon 4 (mkV TGeneric 1)) (canon 4 (mkV TGeneric 4294967297)) = Ok (mkV TGeneric 2).
 Proof. split; vm_compute; reflexivity. Qed.
+
+(* ---------------------------------------------------------------- packaging for Properties/C07.v *)
+Definition agrees1 (sz : N) (m : value -> N -> res value) (s : value -> res value) : Prop :=
+  forall a, addr_size sz -> wf_value a = true -> cres sz (m a (amask sz)) = s (canon sz a).
+Definition agrees2 (sz : N) (m : value -> value -> N -> res value) (s : value -> value -> res value) : Prop :=
+  forall a b, addr_size sz -> wf_value a = true -> wf_value b = true ->
+    cres sz (m a b (amask sz)) = s (canon sz a) (canon sz b).
+Definition agrees_shift (sz : N) (m : value -> value -> N -> res value) (s : value -> value -> res value) : Prop :=
+  forall a b, addr_size sz -> wf_value a = true -> wf_value b = true -> count_ok sz b ->
+    cres sz (m a b (amask sz)) = s (canon sz a) (canon sz b).
+
+Lemma value_ops_lemma (F : fops) (sz : N) :
+  agrees2 sz (vadd F) (sp_add sz F) /\ agrees2 sz (vsub F) (sp_sub sz F) /\ agrees2 sz (vmul F) (sp_mul sz F) /\
+  agrees2 sz (vdiv F) (sp_div sz F) /\ agrees2 sz vrem (sp_rem sz) /\
+  agrees2 sz (vand F) sp_and /\ agrees2 sz (vor F) sp_or /\ agrees2 sz (vxor F) sp_xor /\
+  agrees1 sz (vnot F) (sp_not sz) /\ agrees1 sz vneg (sp_neg sz) /\ agrees1 sz vabs (sp_abs sz) /\
+  agrees2 sz veq (sp_eq sz) /\ agrees2 sz vge (sp_ge sz) /\ agrees2 sz vgt (sp_gt sz) /\
+  agrees2 sz vle (sp_le sz) /\ agrees2 sz vlt (sp_lt sz) /\ agrees2 sz vne (sp_ne sz) /\
+  agrees_shift sz vshl (sp_shl sz) /\ agrees_shift sz vshr (sp_shr sz) /\ agrees_shift sz vshra (sp_shra sz) /\
+  (forall a t, addr_size sz -> wf_value a = true -> cres sz (convert F a t (amask sz)) = sp_convert sz F (canon sz a) t) /\
+  (forall a t, addr_size sz -> wf_value a = true -> cres sz (reinterpret a t (amask sz)) = sp_reinterpret sz (canon sz a) t).
+Proof.
+  unfold agrees1, agrees2, agrees_shift.
+  repeat split; intros.
+  - now apply vadd_spec. - now apply vsub_spec. - now apply vmul_spec. - now apply vdiv_spec.
+  - now apply vrem_spec. - now apply vand_spec. - now apply vor_spec. - now apply vxor_spec.
+  - now apply vnot_spec. - now apply vneg_spec. - now apply vabs_spec.
+  - now apply veq_spec. - now apply vge_spec. - now apply vgt_spec. - now apply vle_spec.
+  - now apply vlt_spec. - now apply vne_spec.
+  - now apply vshl_spec. - now apply vshr_spec. - now apply vshra_spec.
+  - now apply convert_spec. - now apply reinterpret_spec.
+Qed.
+
+Lemma shift_count_refuted_lemma :
+  exists (sz : N) (a b : value), addr_size sz /\ wf_value a = true /\ wf_value b = true /\
+    cres sz (vshl a b (amask sz)) <> sp_shl sz (canon sz a) (canon sz b).
+Proof.
+  exists 4, (mkV TGeneric 1), (mkV TGeneric 4294967297).
+  destruct shift_count_witness as [H1 H2]. repeat split; try (right; right; left; reflexivity).
+  rewrite H1, H2. discriminate.
+Qed.
+
+(* "generic values compared modulo the address size" at the level of single operations: operands
+   that denote the same canonical values give results that denote the same canonical value *)
+Lemma mask_invariance_ops (F : fops) (sz : N) (a a' b b' : value) :
+  addr_size sz -> wf_value a = true -> wf_value a' = true -> wf_value b = true -> wf_value b' = true ->
+  canon sz a = canon sz a' -> canon sz b = canon sz b' ->
+  (forall op, In op [vadd F; vsub F; vmul F; vdiv F; vrem; vand F; vor F; vxor F; veq; vge; vgt; vle; vlt; vne] ->
+     cres sz (op a b (amask sz)) = cres sz (op a' b' (amask sz))) /\
+  (forall op, In op [vnot F; vneg; vabs] -> cres sz (op a (amask sz)) = cres sz (op a' (amask sz))) /\
+  (forall op, In op [vshl; vshr; vshra] -> count_ok sz b -> count_ok sz b' ->
+     cres sz (op a b (amask sz)) = cres sz (op a' b' (amask sz))) /\
+  (forall t, cres sz (convert F a t (amask sz)) = cres sz (convert F a' t (amask sz))) /\
+  (forall t, cres sz (reinterpret a t (amask sz)) = cres sz (reinterpret a' t (amask sz))).
+Proof.
+  intros SZ WA WA' WB WB' CA CB.
+  destruct (value_ops_lemma F sz) as (H1 & H2 & H3 & H4 & H5 & H6 & H7 & H8 & H9 & H10 & H11 & H12 & H13 & H14 &
+    H15 & H16 & H17 & H18 & H19 & H20 & H21 & H22).
+  unfold agrees1, agrees2, agrees_shift in *.
+  repeat split.
+  - intros op [<-|[<-|[<-|[<-|[<-|[<-|[<-|[<-|[<-|[<-|[<-|[<-|[<-|[<-|[]]]]]]]]]]]]]]];
+      match goal with H : forall a b, _ -> _ -> _ -> cres sz (?f a b _) = _ |- cres sz (?f _ _ _) = _ =>
+        rewrite !H by assumption; now rewrite CA, CB end.
+  - intros op [<-|[<-|[<-|[]]]];
+      match goal with H : forall a, _ -> _ -> cres sz (?f a _) = _ |- cres sz (?f _ _) = _ =>
+        rewrite !H by assumption; now rewrite CA end.
+  - intros op [<-|[<-|[<-|[]]]] C1 C2;
+      match goal with H : forall a b, _ -> _ -> _ -> _ -> cres sz (?f a b _) = _ |- cres sz (?f _ _ _) = _ =>
+        rewrite !H by assumption; now rewrite CA, CB end.
+  - intros t. rewrite !H21 by assumption. now rewrite CA.
+  - intros t. rewrite !H22 by assumption. now rewrite CA.
+Qed.
